@@ -887,3 +887,89 @@ func VfH_C06_line_hyphen() {
 	}
 	vfReach("end")
 }
+
+// vfRepsOfLine / vfRepsOfWord select one narrow representative per listed class from repgen's list.
+func vfRepsOfLine(want ...*ucdTable) []rune {
+	seen := map[*ucdTable]bool{}
+	var out []rune
+	for _, r := range vfReps {
+		c := ucd.LookupLineBreakClass(r)
+		for _, w := range want {
+			if c == w && !seen[c] && !unicode.Is(ucd.LargeEastAsian, r) && !(c == ucd.BreakSA) {
+				seen[c] = true
+				out = append(out, r)
+			}
+		}
+	}
+	return out
+}
+
+func vfRepsOfWord(want ...*ucdTable) []rune {
+	seen := map[*ucdTable]bool{}
+	var out []rune
+	for _, r := range vfReps {
+		c := ucd.LookupWordBreakClass(r)
+		for _, w := range want {
+			if c == w && !seen[c] && !vfIsPic(r) && r != 0x200D && r != 0x0D && r != 0x0A {
+				seen[c] = true
+				out = append(out, r)
+			}
+		}
+	}
+	return out
+}
+
+func vfLineChain(reps []rune, name string) {
+	n := 4
+	if vfThorough() {
+		n = 4 + vfChoice("extra", 2)
+	}
+	text := make([]rune, n)
+	for i := range text {
+		text[i] = reps[vfInt(name, 0, len(reps)-1)]
+	}
+	var seg Segmenter
+	seg.Init(text)
+	want := vfLineRef(text)
+	for i := 0; i <= n; i++ {
+		vfAssert((seg.attributes[i]&lineBoundary != 0) == want[i], "line break opportunity differs from UAX #14 (LB rules)")
+	}
+	vfReach("end")
+}
+
+// H-C06-line-korean: LB26, LB27 (Hangul syllable blocks with prefix / postfix) and LB9.
+func VfH_C06_line_korean() {
+	vfLineChain(vfRepsOfLine(ucd.BreakJL, ucd.BreakJV, ucd.BreakJT, ucd.BreakH2, ucd.BreakH3, ucd.BreakPR, ucd.BreakPO, ucd.BreakCM, ucd.BreakAL), "koreanRep")
+}
+
+// H-C06-line-ideo: LB22, LB23a, LB24, LB28-LB30b around ideographs, emoji bases / modifiers, inseparables, exclamation, infix.
+func VfH_C06_line_ideo() {
+	vfLineChain(vfRepsOfLine(ucd.BreakID, ucd.BreakEB, ucd.BreakEM, ucd.BreakPR, ucd.BreakPO, ucd.BreakIN, ucd.BreakEX, ucd.BreakIS, ucd.BreakAL, ucd.BreakCM, ucd.BreakNU), "ideoRep")
+}
+
+// H-C06-line-glue: LB11, LB12, LB12a, LB13, LB19 (word joiner, glue, quotation) and LB8a / LB9 with ZWJ.
+func VfH_C06_line_glue() {
+	vfLineChain(vfRepsOfLine(ucd.BreakWJ, ucd.BreakGL, ucd.BreakQU, ucd.BreakZWJ, ucd.BreakCM, ucd.BreakSP, ucd.BreakBA, ucd.BreakAL, ucd.BreakCL, ucd.BreakEX), "glueRep")
+}
+
+// H-C06-word-chain2: the word rules not reached by H-C06-word-chain: Hebrew letters with quotes (WB7a-c),
+// Katakana, ExtendNumLet (WB13-WB13b), white space (WB3d), with WB4.
+func VfH_C06_word_chain2() {
+	reps := vfRepsOfWord(ucd.WordBreakHebrew_Letter, ucd.WordBreakSingle_Quote, ucd.WordBreakDouble_Quote, ucd.WordBreakKatakana,
+		ucd.WordBreakExtendNumLet, ucd.WordBreakExtendFormat, ucd.WordBreakALetter, ucd.WordBreakWSegSpace, ucd.WordBreakNumeric)
+	n := 5
+	if vfThorough() {
+		n = 5 + vfChoice("extra", 2)
+	}
+	text := make([]rune, n)
+	for i := range text {
+		text[i] = reps[vfInt("chain2Rep", 0, len(reps)-1)]
+	}
+	var seg Segmenter
+	seg.Init(text)
+	want := vfWordRef(text)
+	for i := 0; i <= n; i++ {
+		vfAssert((seg.attributes[i]&wordBoundary != 0) == want[i], "word boundary differs from UAX #29 (WB rules)")
+	}
+	vfReach("end")
+}
